@@ -229,7 +229,12 @@ func (sa *Safe) unop(fr *frame, st *State, x *ssa.UnOp) {
 	switch x.Op {
 	case token.MUL:
 		sa.needNonNil(fr, st, v, exprText(x.X), x.Pos())
-		fr.regs[x] = sa.loadM(fr, st, v.Obj, v.Path, x.Type(), exprText(x))
+		lv := sa.loadM(fr, st, v.Obj, v.Path, x.Type(), exprText(x))
+		if g, ok := x.X.(*ssa.Global); ok && g.Pkg != nil && relPkg(g.Pkg.Pkg) == "logger" && lv.Kind == avPtr {
+			// premise: the logger handles are set once by logger.init from logrus.WithFields (never nil) and never written again (C19)
+			lv.NonNil = true
+		}
+		fr.regs[x] = lv
 	case token.NOT:
 		r := AVal{Kind: avBool, Type: x.Type()}
 		if v.Cond != nil {
